@@ -34,6 +34,8 @@ class QCircuitEnhanced(QCircuit):
         # has been computed and then uncomputed
         self.ancilla_lives = {}
         self.ancilla_life_start = {}
+        self._gates_over = {}
+        self._gates_over_n = 0
 
     def map_qubit(self, name: Union[str, Symbol], index: int, promote=False):
         """Map a name to a qubit
@@ -166,6 +168,17 @@ class QCircuitEnhanced(QCircuit):
 
         return uncomputed
 
+    def gates_over(self, w, first, end):
+        """Return the indexes, between first and end, of the gates having w as target"""
+        for i in range(self._gates_over_n, len(self.gates)):
+            g, ws, p = self.gates[i]
+            if not issubclass(g.__class__, gates.NopGate):
+                self._gates_over.setdefault(ws[-1], []).append(i)
+        self._gates_over_n = len(self.gates)
+
+        over = self._gates_over.get(w, [])
+        return over[bisect.bisect_left(over, first) : bisect.bisect_left(over, end)]
+
     def uncompute(self, to_mark=[]):
         """Uncompute all the marked ancillas plus the to_mark list"""
         [self.mark_ancilla(x) for x in to_mark]
@@ -174,22 +187,65 @@ class QCircuitEnhanced(QCircuit):
             return []
 
         uncomputed = set()
-        new_gates_comp = []
+        n_gates = len(self.gates)
+        gates_computed = [
+            ag for ag in self.gates_computed if ag[1][-1] not in self.marked_ancillas
+        ]
 
-        for g, ws, p in reversed(self.gates_computed):  # type: ignore
-            if ws[-1] in self.marked_ancillas:
-                uncomputed.add(ws[-1])
-                self.append(g, ws, p)
-            else:
-                new_gates_comp.append((g, ws, p))
-
+        # 1. The gates to replay are those over the marked ancillas, since they were
+        # last handed out
+        replay = set()
+        todo = []
+        first = {}
         for x in self.marked_ancillas:
-            if x in uncomputed and x in self.ancilla_life_start:
-                self.ancilla_lives.setdefault(x, []).append(
-                    (self.ancilla_life_start.pop(x), len(self.gates))
-                )
+            first[x] = self.ancilla_life_start.pop(x, None)
+            if first[x] is None:
+                first[x] = self.ancilla_lives[x][-1][1] if self.was_released(x) else 0
+            for i in self.gates_over(x, first[x], n_gates):
+                replay.add(i)
+                todo.append(i)
+
+        # 2. A gate to replay needs its controls in the state they had: if one of them
+        # was an ancilla released in the meantime, what computed and uncomputed it is
+        # replayed too, on a spare ancilla if it is now holding something else
+        host = {}
+        spares = set()
+        while len(todo) > 0:
+            i = todo.pop()
+            for c in self.gates[i][1][:-1]:
+                life = self.ancilla_life_of(c, i)
+                if life is None or life in host:
+                    continue
+
+                if c in self.marked_ancillas or c in self.free_ancilla_lst:
+                    host[life] = c
+                else:
+                    host[life] = self.add_ancilla(is_free=False)
+                    spares.add(host[life])
+
+                for j in self.gates_over(c, life[1], life[2]):
+                    replay.add(j)
+                    todo.append(j)
+
+        # 3. Replay in reverse order, taking note of the gate range of every replayed life
+        ranges = {}
+        for i in sorted(replay, reverse=True):
+            g, ws, p = self.gates[i]
+            lives = [self.ancilla_life_of(w, i) for w in ws]
+            ws = [host.get(life, w) for life, w in zip(lives, ws)]
+            r = ranges.setdefault((ws[-1], lives[-1]), [len(self.gates), 0])
+            r[1] = len(self.gates) + 1
+            self.append(g, ws, p)
+
+        for (w, life), (r_first, r_end) in sorted(ranges.items(), key=lambda r: r[1]):
+            if life is None:
+                uncomputed.add(w)
+                r_first = first[w]
+            self.ancilla_lives.setdefault(w, []).append((r_first, r_end))
+
+        for x in self.marked_ancillas | spares:
             self.free_ancilla_lst.add(x)
         self.marked_ancillas = self.marked_ancillas - uncomputed
-        self.gates_computed = new_gates_comp[::-1]
+        self.gates_computed = gates_computed
 
         return uncomputed
